@@ -47,10 +47,10 @@ use tokio::net::TcpStream;
 
 pub const PREFIX: &str = "auth_";
 
-struct G {
-    rt: tokio::runtime::Runtime,
-    ctx: Arc<FrontendContext>,
-    slots: Mutex<HashMap<String, String>>,
+pub struct G {
+    pub rt: tokio::runtime::Runtime,
+    pub ctx: Arc<FrontendContext>,
+    pub slots: Mutex<HashMap<String, String>>,
     conns: Mutex<HashMap<String, BufReader<TcpStream>>>,
     tcp_up: Mutex<bool>,
     http_up: Mutex<bool>,
@@ -58,7 +58,7 @@ struct G {
 
 static GL: OnceLock<G> = OnceLock::new();
 
-fn g() -> &'static G {
+pub fn g() -> &'static G {
     GL.get_or_init(|| {
         let rt = tokio::runtime::Builder::new_multi_thread()
             .worker_threads(2)
@@ -90,7 +90,7 @@ fn subst(s: &str) -> String {
     out
 }
 
-fn text(h: &str) -> String {
+pub fn text(h: &str) -> String {
     subst(&String::from_utf8_lossy(&unhex(h)))
 }
 
